@@ -37,6 +37,7 @@ def run(db, chk) -> None:
     _compare(db, chk, m)
     _classes(db, chk, m)
     _full_trace(db, chk, m)
+    _short_names(db, chk)
 
 
 def _summary(db, chk, m):
@@ -376,3 +377,42 @@ def _full_trace(db, chk, m):
                    why="a Trace taken from a TraceAnalysis was trimmed by align_and_filter_trace: without the re-parse the last profiler step compares as empty")
             chk.ob(rule, f"LabeledTrace({given}) [{cond}]: no step trimming", not trims, where, found=len(trims), accepted=0)
     chk.floor(rule, 4)
+
+
+def _short_names(db, chk):
+    """'long or short names': with use_short_name the rows are keyed by shorten_name(name) - every BALANCED <...> and (...) group is removed wherever it stands, then the last
+    blank-separated token is kept.  Decided by evaluating the function on representative names (brackets in the middle of a name, nested groups, a return type)."""
+    rule = "C17.R6-short-names"
+    ut = db.mod("hta.utils.utils")
+    fn = ut.functions.get("shorten_name")
+    if fn is None:
+        chk.ob(rule, "shorten_name found", None, "hta/utils/utils.py", found="absent")
+        return
+
+    def reference(name: str) -> str:          # the documented behaviour, written independently (checker's specification)
+        if "<" not in name and "(" not in name:
+            return name
+        stack = []
+        for c in name.replace("->", ""):
+            if c in ">)":
+                o = "<" if c == ">" else "("
+                while stack and stack[-1] != o:
+                    stack.pop()
+                if stack:
+                    stack.pop()
+            else:
+                stack.append(c)
+        return "".join(stack).split(" ")[-1]
+    names = ["aten::add", "a<int>(b)", "void at::native::(anonymous namespace)::indexSelectLargeIndex<float, 2>(x, y)", "ns::Cls<T>::member<U>(int)", "f(a)->b",
+             "void at::native::vectorized_elementwise_kernel<4, at::native::BinaryFunctor<float, float, float, at::native::AddFunctor<float> >, at::detail::Array<char*, 3> >(int, at::native::BinaryFunctor<float, float, float, at::native::AddFunctor<float> >, at::detail::Array<char*, 3>)"]
+    got, want = {}, {n_: reference(n_) for n_ in names}
+    for n_ in names:
+        try:
+            runs = [r for r in Interp(db).explore("hta.utils.utils:shorten_name", lambda I, n_=n_: {"name": n_}) if r.raised is None]
+        except Exception:          # noqa
+            runs = []
+        got[n_] = runs[0].ret if len(runs) == 1 and isinstance(runs[0].ret, str) else None
+    verdict = None if any(v is None for v in got.values()) else got == want
+    chk.ob(rule, "shorten_name removes every balanced <...> / (...) group wherever it stands and keeps the last blank-separated token", verdict, ut.loc(fn),
+           found={k[:50]: v for k, v in got.items() if v != want[k]} or "all representative names agree", accepted={k[:50]: v for k, v in want.items()},
+           why="greedy patterns from the first opening to the last closing bracket delete the part of the name between two groups: different operators collapse into one row of the comparison")
